@@ -785,6 +785,7 @@ namespace pika::threads::detail {
         /// Schedule the passed thread
         void schedule_thread(threads::detail::thread_id_ref_type thrd, bool other_end = false)
         {
+            PIKA_VERIF_POST("q.push", threads::detail::get_thread_id_data(thrd), threads::detail::get_thread_id_data(thrd)->verif_word(), 1);
             ++work_items_count_.data_;
 #ifdef PIKA_HAVE_THREAD_QUEUE_WAITTIME
             using namespace std::chrono;
@@ -804,6 +805,7 @@ namespace pika::threads::detail {
         void destroy_thread(threads::detail::thread_data* thrd)
         {
             PIKA_ASSERT(&thrd->get_queue<thread_queue>() == this);
+            PIKA_VERIF_POST("task.destroy", thrd, thrd->verif_word(), 1);
 
 #ifdef PIKA_HAVE_THREAD_STACK_MMAP
             terminated_items_.push(thrd);
